@@ -114,6 +114,7 @@ pub fn full_derives(d: &Decl) -> Vec<Tr> {
         Inner::Point => t.extend([Tr::Copy, Tr::Eq, Tr::Ord, Tr::Hash, Tr::Display, Tr::FromStr]),
         // no Eq / Ord / Hash / Display / FromStr on the inner type
         Inner::CowF32 => {}
+        Inner::VecU8 => t.extend([Tr::Eq, Tr::Ord, Tr::Hash]),
     }
     if d.generic != Generic::None {
         // Copy needs T: Copy which the declaration does not state
@@ -203,6 +204,7 @@ pub fn catalogue() -> Vec<Decl> {
     others(&mut out);
     infallible_try_from(&mut out);
     cows(&mut out);
+    byte_vecs(&mut out);
     out
 }
 
@@ -293,6 +295,45 @@ fn ints(out: &mut Vec<Decl>) {
             };
             let d = std(Decl::new(Inner::Int(t)), vals).tag(&format!("int-spelling:{class}"));
             out.push(with_derives(d, &[Tr::Debug, Tr::Clone, Tr::PartialEq, Tr::TryFrom, Tr::Display, Tr::FromStr, Tr::Arbitrary]));
+        }
+    }
+
+    // C2. Arbitrary with exclusive bounds spelled as expressions whose top-level operator binds looser than
+    // `+`/`-` (a generator stepping over the bound with `expr + 1` must group the expression first)
+    for t in [IntTy::I32, IntTy::U8, IntTy::I16] {
+        let n = t.name();
+        let mut exprs: Vec<(&str, String, i128)> = vec![
+            ("bitand", "KA & 7".into(), 5),
+            ("bitand-high", "KB & 96".into(), 96),
+            ("shr", "KB >> 1".into(), 50),
+            ("shl", "ONE << 4".into(), 16),
+            ("bitxor", "KA ^ 1".into(), 4),
+            ("bitor", "KA | 2".into(), 7),
+            ("cast", format!("KA as i64 as {n}"), 5),
+            ("if-expr", "if KA > 3 { 9 } else { 1 }".into(), 9),
+            ("sub", "KB - KA".into(), 95),
+            ("rem", "KB % 7".into(), 2),
+            ("div", "KB / 7".into(), 14),
+            ("mul", "KA * 3".into(), 15),
+        ];
+        if t.signed() {
+            exprs.push(("neg", "-KA".into(), -5));
+            exprs.push(("not", "!KA".into(), -6));
+        }
+        for (class, text, v) in exprs {
+            let b = || expr_i(class, &text, v);
+            for (ki, vals) in [
+                vec![ValSpec::Greater(b())],
+                vec![ValSpec::Less(b())],
+                vec![ValSpec::Greater(b()), ValSpec::LessEq(b_int(t, 120))],
+                vec![ValSpec::GreaterEq(b_int(t, if t.signed() { -20 } else { 0 })), ValSpec::Less(b())],
+            ]
+            .into_iter()
+            .enumerate()
+            {
+                let d = std(Decl::new(Inner::Int(t)), vals).tag(&format!("int-arb-precedence:{class}:{ki}"));
+                out.push(with_derives(d, &[Tr::Debug, Tr::TryFrom, Tr::Arbitrary]));
+            }
         }
     }
 
@@ -1182,6 +1223,39 @@ fn cows(out: &mut Vec<Decl>) {
     }
     // no validation, no sanitizers: From
     out.push(with_full(Decl::new(inner).tag("cow-bare")));
+}
+
+/// byte buffers `Vec<u8>`
+fn byte_vecs(out: &mut Vec<Decl>) {
+    let inner = Inner::VecU8;
+    let mut k = 0;
+    for sl in [vec![], vec!["s_sort"], vec!["s_take3"], vec!["s_push0"]] {
+        for vi in 0..5 {
+            let mut d = Decl::new(inner).tag("bytes-sanitize");
+            d.sans = sl.iter().map(|n| { k += 1; SanSpec::With(f(n, FN_FORMS[k % FN_FORMS.len()])) }).collect();
+            k += 1;
+            let form = FN_FORMS[k % FN_FORMS.len()];
+            d.vals = match vi {
+                0 => Vals::None,
+                1 => Vals::Std(vec![ValSpec::Predicate(f("p_nonempty", form))]),
+                2 => Vals::Std(vec![ValSpec::Predicate(f("p_short", form))]),
+                3 => Vals::Std(vec![ValSpec::Predicate(f("p_utf8", form))]),
+                _ => Vals::Custom(f("v_sum", FnForm::Path)),
+            };
+            if vi == 1 {
+                d.default = Some(DefaultSpec { macro_text: "vec![3, 1, 2]".into(), neutral_text: "vec![3, 1, 2]".into(), class: "valid".into() });
+            }
+            out.push(with_full(d.clone()));
+            if vi == 0 {
+                out.push(with_full_tryfrom(d));
+            }
+        }
+    }
+    for s in [vec![Tr::Serialize], vec![Tr::Deserialize], vec![Tr::Serialize, Tr::Deserialize], vec![Tr::PartialEq, Tr::Eq, Tr::Hash, Tr::Borrow], vec![Tr::Deref], vec![Tr::AsRef], vec![Tr::Into]] {
+        let mut d = std(Decl::new(inner), vec![ValSpec::Predicate(f("p_nonempty", FnForm::Closure))]).tag("bytes-single-trait");
+        d.sans = vec![SanSpec::With(f("s_sort", FnForm::Path))];
+        out.push(with_derives(d, &s));
+    }
 }
 
 /// declarations without validation deriving `TryFrom` (infallible): bare and sanitize-only, every family
